@@ -17,7 +17,58 @@ type Ctx struct {
 }
 
 func NewCtx(p *an.Prog, a *Anchors, r *an.Report) *Ctx {
+	indexCallSites(p)
 	return &Ctx{P: p, A: a, R: r, O: an.NewOriginator(p)}
+}
+
+// callSitesOf: static call sites of every module function (for resolving a parameter to the arguments it receives).
+var callSitesOf map[*ssa.Function][]*ssa.CallCommon
+var callSitesByCaller map[*ssa.Function][]*ssa.CallCommon
+var callSitesProg *an.Prog
+
+func indexCallSites(p *an.Prog) {
+	if callSitesProg == p {
+		return
+	}
+	callSitesProg = p
+	callSitesOf = map[*ssa.Function][]*ssa.CallCommon{}
+	callSitesByCaller = map[*ssa.Function][]*ssa.CallCommon{}
+	for _, f := range p.Funcs {
+		an.AllInstrs(f, func(in ssa.Instruction) {
+			if call := an.CallOf(in); call != nil {
+				if g := an.StaticCallee(call); g != nil {
+					callSitesOf[g] = append(callSitesOf[g], call)
+					callSitesByCaller[f] = append(callSitesByCaller[f], call)
+				}
+			}
+		})
+	}
+}
+
+// argsOfParam: the argument values a parameter receives at the static call sites of its function (nil if none).
+func argsOfParam(v ssa.Value) []ssa.Value {
+	par, ok := v.(*ssa.Parameter)
+	if !ok {
+		return nil
+	}
+	f := an.Origin(par.Parent())
+	idx := -1
+	for i, p := range f.Params {
+		if p == par {
+			idx = i
+		}
+	}
+	if idx < 0 {
+		return nil
+	}
+	var out []ssa.Value
+	for _, call := range callSitesOf[f] {
+		args := an.CallArgs(call)
+		if idx < len(args) {
+			out = append(out, args[idx])
+		}
+	}
+	return out
 }
 
 // Spec describes the check of one property.
